@@ -50,5 +50,38 @@ def main():
     sys.exit(1 if fails else 0)
 
 
+def main_costs():
+    """network with cost data: to_ppc (OPF mode) appends the controllable sgens / loads as further gen rows of their buses"""
+    fails = []
+    net = pp.create_empty_network()
+    b = pp.create_buses(net, 4, 110.)
+    pp.create_ext_grid(net, b[0], vm_pu=1.03, min_p_mw=-200, max_p_mw=200, min_q_mvar=-200, max_q_mvar=200)
+    for f, t in ((0, 1), (1, 2), (2, 3), (3, 0)):
+        pp.create_line_from_parameters(net, b[f], b[t], 20., 0.06, 0.3, 10., 1.)
+    pp.create_gen(net, b[2], p_mw=30., vm_pu=1.025, controllable=True, min_p_mw=0, max_p_mw=60, min_q_mvar=-50, max_q_mvar=50)
+    pp.create_sgen(net, b[2], 10., 2., controllable=True, min_p_mw=0, max_p_mw=15, min_q_mvar=-5, max_q_mvar=5)
+    pp.create_sgen(net, b[0], 5., 1., controllable=True, min_p_mw=0, max_p_mw=8, min_q_mvar=-3, max_q_mvar=3)
+    pp.create_load(net, b[1], 50., 10.); pp.create_load(net, b[3], 40., 8.)
+    pp.create_poly_cost(net, 0, "ext_grid", cp1_eur_per_mw=10.)
+    pp.create_poly_cost(net, 0, "gen", cp1_eur_per_mw=8.)
+    pp.create_poly_cost(net, 0, "sgen", cp1_eur_per_mw=5.)
+    pp.create_poly_cost(net, 1, "sgen", cp1_eur_per_mw=5.)
+    pp.runpp(net)
+    ppc = to_ppc(net, init="flat")
+    net2 = from_ppc(ppc, f_hz=net.f_hz)
+    pp.runpp(net2)
+    vm1, vm2 = net.res_bus.vm_pu.values, net2.res_bus.vm_pu.values
+    if len(vm1) != len(vm2) or np.max(np.abs(vm1 - vm2)) > 1e-6:
+        fails.append(f"net with costs: bus voltage magnitudes differ by up to {np.max(np.abs(vm1 - vm2)) if len(vm1) == len(vm2) else float('nan'):.2e} pu "
+                     f"(voltage set points after the round trip: ext_grid {net2.ext_grid.vm_pu.values}, gen {net2.gen.vm_pu.values})")
+    if abs(net.res_ext_grid.q_mvar.sum() - net2.res_ext_grid.q_mvar.sum()) > 1e-4:
+        fails.append(f"net with costs: slack reactive power differs ({net.res_ext_grid.q_mvar.sum():.4f} vs {net2.res_ext_grid.q_mvar.sum():.4f} Mvar)")
+    for f in fails:
+        print("REPRODUCED:", f)
+    if not fails:
+        print("not reproduced: the ppc round trip of a network with cost data keeps the power flow results")
+    sys.exit(1 if fails else 0)
+
+
 if __name__ == "__main__":
     main()
